@@ -173,6 +173,17 @@ CHECKS["C13"] = dict(
          "Outside: more rows/levels than stated.",
     design="4/C13", technique=TECH_A + " over a symbolic mini-frame model of polars expressions")
 
+CHECKS["C01"] = dict(
+    text="Pipeline-wide crash freedom runs through pydantic-core and polars and cannot be encoded; decided instead: every "
+         "emitter produces a balanced, lexically valid fragment for EVERY attribute value (numbers kept symbolic through "
+         "rendering, one symbolic code point; text templates compositionally), rows pair boundaries with contents, the three "
+         "document skeletons are one group closed only at the end, column-header rendering cannot crash on its configuration "
+         "space (as_colheader=False, headers without text, nested lists) and half-point sizes reach the text model.",
+    note="Trusted: z3/CrossHair, the template patch, model_construct for pydantic, vf.minipl; concrete witnesses (seeded "
+         "configuration product, read back by an independent reader) are reported separately. Outside: crash freedom of the "
+         "pipeline on arbitrary DataFrames.",
+    design="4/C01", technique=TECH_A + "; symbolic-template patch")
+
 NOT_APPLICABLE = {
     "C18": "file-system crash-point property: effects of pathlib/tempfile/shutil and an external converter are opaque to "
            "(and blocked under) symbolic execution; a model of the file system would verify the model, not the effects",
